@@ -9,6 +9,11 @@ import Operon.Model.Cffl
   reenter <gate> <cacheOn> <e|a> <depth> <pA> <zA> <yA> <pB> <zB> <yB>      -> "ok"   (search-side only: an agent
       that issues a nested run() on the same loop is outside the model — `run` is atomic — and is judged by the
       harness oracle alone)
+  nest <p1> <z1> <y1> <w1> <d1> [<p2> <z2> <y2> <w2> <d2> ...]           -> result1 | result2 | ... ; stats
+      overlapping requests on the current loop, executed phase by phase with `phaseStep` (Model/Cffl.lean): while
+      the executor (w = e / E) or the assessor (w = a / A) of request i is being consulted — after the call was
+      counted, before the agent spends energy and answers — request i+1 runs completely, then the clock advances
+      by d_i µs.  `-` = the request was never issued.
   Verdicts are the raw `action_type` strings (`x:<hex code points>` for strings that are not one token).
 -/
 namespace Operon.Cffl.Drv
@@ -116,6 +121,66 @@ def mkCfg (g b thr tmo c ttl : String) : Cfg :=
   { gate := gateOf g, breakerOn := boolOf b, threshold := intD thr, timeout := intD tmo,
     cacheOn := boolOf c, ttl := intD ttl, cost := 10 }
 
+/-- one level of a nest of overlapping requests -/
+structure Level where
+  p : Prompt
+  z : Resp
+  y : Resp
+  atExec : Bool      -- the next level is issued (and the clock advanced) inside the executor call, else the assessor call
+  d : Nat
+
+def levelsOf : List String → List Level
+  | p :: z :: y :: w :: d :: rest => ⟨promptOf p, respOf z, respOf y, w = "e" || w = "E", natD d⟩ :: levelsOf rest
+  | _ => []
+
+def ph (d : DSt) (op : PhaseOp) : DSt × Option Out :=
+  let r := phaseStep d.cfg idHashes d.st op
+  ({ d with st := r.1 }, r.2)
+
+/-- A nest of overlapping requests as a phase history: every state change below is one `phaseStep` (the energy
+    store is the driver's).  Returns the replies, outermost request first (`-` = never issued). -/
+def nestRun (d : DSt) : List Level → DSt × List String
+  | [] => (d, [])
+  | L :: rest =>
+    let skipped := rest.map fun _ => "-"
+    match ph d (.lookup L.p) with
+    | (d0, some o) => (d0, showResult o.result :: skipped)
+    | (d0, none) =>
+      let d1 := (ph d0 .execCall).1
+      let (d2, inner) := if L.atExec then
+          let (dd, inn) := nestRun d1 rest
+          ((ph dd (.adv L.d)).1, inn)
+        else (d1, skipped)
+      let (store1, ok1) := d2.store.consume d2.cfg.cost
+      let d3 := { d2 with store := store1 }
+      match (if ok1 then L.z else Resp.ret .failure) with
+      | .exc =>
+        let (d4, o) := ph d3 .agentRaised
+        (d4, showResult (o.bind (·.result)) :: inner)
+      | .ret zc =>
+        let d4 := (ph d3 .assessCall).1
+        let (d5, inner) := if L.atExec then (d4, inner) else
+          let (dd, inn) := nestRun d4 rest
+          ((ph dd (.adv L.d)).1, inn)
+        let (store2, ok2) := d5.store.consume d5.cfg.cost
+        let d6 := { d5 with store := store2 }
+        match (if ok2 then L.y else Resp.ret .failure) with
+        | .exc =>
+          let (d7, o) := ph d6 .agentRaised
+          (d7, showResult (o.bind (·.result)) :: inner)
+        | .ret yc =>
+          let (d7, o) := ph d6 (.finish L.p zc yc)
+          (d7, showResult (o.bind (·.result)) :: inner)
+
+def nestLine (d : DSt) (toks : List String) : DSt × String :=
+  let ls := levelsOf toks
+  if ls.isEmpty || ls.length * 5 ≠ toks.length || 4 < ls.length then (d, "bad-op")
+  else
+    let (d', rs) := nestRun d ls
+    (d', " | ".intercalate rs ++ " ; " ++ showStats d'.st d'.store ++ s!" ## nest:{ls.length}"
+      ++ (if d'.st.cache.length < d.st.cache.length then " cache:shrunk" else "")
+      ++ (if (rs.filter (· ≠ "-")).length = ls.length then " nest:all-issued" else ""))
+
 def step (d : DSt) (toks : List String) : DSt × String :=
   match toks with
   | ["cfg", g, b, thr, tmo, c, ttl] => ({ cfg := mkCfg g b thr tmo c ttl, st := {}, store := {} }, "ok")
@@ -136,6 +201,7 @@ def step (d : DSt) (toks : List String) : DSt × String :=
   | ["clearcache"] =>
     let (s', _) := Cffl.step d.cfg idHashes d.st .clearcache
     ({ d with st := s' }, "- ; " ++ showStats s' d.store)
+  | "nest" :: rest => nestLine d rest
   | ["reenter", _, _, _, _, _, _, _, _, _, _] => (d, "ok")   -- re-entrant agent stubs: judged by the harness oracle only
   | _ => (d, "bad-op")
 
